@@ -56,6 +56,7 @@ def splitmix64 (x : UInt64) : UInt64 :=
 inductive Sig where
   | zero | index | noise (seed : UInt64) | poly (deg : Nat) (seed : UInt64)
   | sine (f : Float) | impulse (pos : Nat) | tiny32 (seed : UInt64) | tiny64 (seed : UInt64)
+  | burst (period : Nat) (seed : UInt64)
 
 def Sig.parse (s : String) : Option Sig :=
   let h := s.take 1
@@ -73,6 +74,12 @@ def Sig.parse (s : String) : Option Sig :=
   else if h == "k" then t.toNat?.map .impulse
   else if h == "d" then t.toNat?.map fun n => .tiny32 n.toUInt64
   else if h == "e" then t.toNat?.map fun n => .tiny64 n.toUInt64
+  else if h == "b" then
+    match t.splitOn "," with
+    | [pd, sd] => match pd.toNat?, sd.toNat? with
+      | some pd, some sd => if pd == 0 then none else some (.burst pd sd.toUInt64)
+      | _, _ => none
+    | _ => none
   else none
 
 def polyCoeff (seed : UInt64) (k : Nat) : Float :=
@@ -99,6 +106,7 @@ def Sig.value (sg : Sig) (ch : Nat) (g : Nat) : Float :=
     acc + ch.toUInt64.toFloat
   | .sine f => Float.sin (2.0 * pi64 * f * g.toUInt64.toFloat + 0.3 * ch.toUInt64.toFloat)
   | .impulse p => if g == p then 1.0 else 0.0
+  | .burst pd seed => if (g / pd + ch) % 2 == 0 then noiseValue seed ch g else 0.0
 
 /-! ### option parsing -/
 
